@@ -49,6 +49,20 @@ fn differential<F: LangInterpreter, C: LangInterpreter>(f: &F, c: &C, text: &str
     let stream: Vec<Tk> = toks.iter().enumerate().map(|(i, t)| Tk::new(i, &t.text)).collect();
     same!("replace_numbers_in_stream", replace_numbers_in_stream(stream.clone(), f, th), replace_numbers_in_stream(stream, c, th));
     same!("basic_annotate", annotate_flags(f, text), annotate_flags(c, text));
+    // the same pass on a caller-built token vector, some tokens arriving already flagged
+    {
+        let mk = || -> Vec<Tk> {
+            toks.iter().enumerate().map(|(i, t)| {
+                let mut k = Tk::new(i, &t.text);
+                k.nan = is_word(&t.text) && (t.text.len() + i) % 5 == 0;
+                k
+            }).collect()
+        };
+        let (mut a, mut b) = (mk(), mk());
+        f.basic_annotate(&mut a);
+        c.basic_annotate(&mut b);
+        same!("basic_annotate on pre-flagged caller tokens", a.iter().map(|t| t.nan).collect::<Vec<_>>(), b.iter().map(|t| t.nan).collect::<Vec<_>>());
+    }
     // per-word trait methods, on the builder states the text's own words produce
     let lower = text.to_lowercase();
     let words: Vec<&str> = lower.split_whitespace().collect();
